@@ -48,6 +48,7 @@ pub mod c05;
 pub mod c06;
 pub mod c07;
 pub mod c10;
+pub mod c20;
 pub mod work;
 
 pub const SCHEMA: &str = r#"
